@@ -4,7 +4,7 @@
 # ("checks"), reverts, and prints one line per (seed, check). /repo must be clean.
 cd /verif
 [ -z "$(git -C /repo status --porcelain)" ] || { echo "/repo is not clean"; exit 2; }
-ids="$@"; [ -n "$ids" ] || ids=$(cd seeded && ls -d */ | tr -d /)
+ids="$@"; [ -n "$ids" ] || ids=$(cd seeded && ls -d */ | tr -d / | grep -v "^equivalent")
 for sid in $ids; do
   d=seeded/$sid
   checks=$(python3 -c "import json,sys;print(' '.join(json.load(open('$d/meta.json'))['checks']))" 2>/dev/null)
